@@ -957,6 +957,11 @@ func (t *Ty) ModelOK() bool {
 		if t.Key.deref().K != KStr && t.Key.deref().K != KInt && t.Key.K != KText {
 			return false
 		}
+		// optdec has a decoder for exactly map[string]string; named string kinds take the generic one, which the
+		// resolved form (named scalars = their kind) cannot tell apart
+		if t.Key.deref().K == KStr && t.El.deref().K == KStr && (t.Key.K == KNamed || t.El.K == KNamed) {
+			return false
+		}
 		return t.El.ModelOK()
 	case KStruct:
 		for _, f := range t.Resolve() {
